@@ -151,6 +151,27 @@ type evmSub struct {
 	inc      int
 }
 
+// faultWindow: every request of `kind` released while the fake clock is inside [from, until] and
+// whose key hashes into the window's selection fails with `code`. Which request meets a fault is
+// thus a pure function of (seed, window serial, request key), never of the order in which the
+// watcher's map iteration happens to issue requests.
+type faultWindow struct {
+	kind        string
+	code        int
+	serial      int
+	from, until time.Duration
+}
+
+func (s *evmSim) faultFor(kind, key string) (int, bool) {
+	now := s.now()
+	for _, f := range s.faults {
+		if f.kind == kind && now >= f.from && now <= f.until && simkit.Hash64(s.prog.Seed, "fault", strconv.Itoa(f.serial), key)%3 != 0 {
+			return f.code, true
+		}
+	}
+	return 0, false
+}
+
 type evmHandoff struct {
 	pub  *common.MessagePublication
 	path string
@@ -175,7 +196,8 @@ type evmSim struct {
 	parked  []*evmParked
 	seq     int
 	epoch   uint64
-	faults  map[string][]int
+	faults  []faultWindow // order-independent fault decisions (rule D3)
+	nFaults int
 	reqs    map[string]int
 	servers []*ethRpc2.Server
 	subs    []*evmSub
@@ -272,6 +294,8 @@ func (s *evmSim) park(kind, key string) error {
 	switch <-p.ch {
 	case 0:
 		return errInjected
+	case 2:
+		return errors.New("header not found") // geth's answer from a lagging / load-balanced backend: transient
 	case 1:
 		// stall far beyond every caller's deadline
 		time.Sleep(40 * time.Second)
@@ -302,7 +326,7 @@ func (e ethService) GetBlockByNumber(ctx context.Context, num string, full bool)
 		}
 		n = v
 	}
-	if num == "latest" || num == "finalized" || num == "safe" {
+	if (num == "latest" && !s.useFinal) || num == "finalized" || num == "safe" {
 		if n > s.maxHeadServed {
 			s.maxHeadServed = n
 		}
@@ -312,6 +336,26 @@ func (e ethService) GetBlockByNumber(ctx context.Context, num string, full bool)
 	}
 	b := s.chain[n]
 	return map[string]interface{}{"number": (*hexutil.Big)(new(big.Int).SetUint64(b.number)), "hash": b.hash}, nil
+}
+
+// BlockNumber serves eth_blockNumber (the unfinalized tip). On chains read at finalized height the
+// tip is not "the chain head the watcher has seen" in the sense of the property.
+func (e ethService) BlockNumber(ctx context.Context) (hexutil.Uint64, error) {
+	s := e.s
+	if err := s.park("blockByNumber", "tip"); err != nil {
+		return 0, err
+	}
+	s.mu.Lock()
+	defer s.mu.Unlock()
+	if !s.useFinal {
+		if s.head() > s.maxHeadServed {
+			s.maxHeadServed = s.head()
+		}
+		if s.reobsPhase {
+			s.headServedInPhase = s.head()
+		}
+	}
+	return hexutil.Uint64(s.head()), nil
 }
 
 func (e ethService) GetBlockByHash(ctx context.Context, hash ethCommon2.Hash, full bool) (map[string]interface{}, error) {
@@ -502,10 +546,9 @@ func (s *evmSim) release(p *evmParked) {
 	s.reqs[p.kind]++
 	if s.aborting {
 		code = 0
-	} else if fq := s.faults[p.kind]; len(fq) > 0 {
-		code = fq[0]
-		s.faults[p.kind] = fq[1:]
-		s.stats.Fault([]string{"rpc-error:", "rpc-stall:"}[code] + p.kind)
+	} else if c, hit := s.faultFor(p.kind, p.key); hit {
+		code = c
+		s.stats.Fault([]string{"rpc-error:", "rpc-stall:", "rpc-error-header-not-found:"}[code] + p.kind)
 		if p.kind == "receipt" && !p.phase {
 			// "abandoned only after the node has failed to confirm it for the whole abandonment window":
 			// remember when every lookup of a transaction failed from its first attempt until a head
@@ -685,7 +728,7 @@ func (evmHarness) Name() string { return "evmsim" }
 
 func (h evmHarness) Exec(p *simkit.Program) *simkit.Result {
 	res := &simkit.Result{Seed: p.Seed, Prop: p.Prop, Steps: len(p.Steps)}
-	s := &evmSim{res: res, log: &simkit.Log{}, stats: simkit.NewStats(), prog: p, byHash: map[ethCommon2.Hash]*evmBlock{}, faults: map[string][]int{}, reqs: map[string]int{}}
+	s := &evmSim{res: res, log: &simkit.Log{}, stats: simkit.NewStats(), prog: p, byHash: map[ethCommon2.Hash]*evmBlock{}, reqs: map[string]int{}}
 	s.useFinal = p.C("finalized", 0) == 1
 	curSim = s
 	muChansMu.Lock()
@@ -745,6 +788,17 @@ func (h evmHarness) Exec(p *simkit.Program) *simkit.Result {
 		}
 		res.SimNs = int64(s.now())
 		s.mu.Lock()
+		// the per-transaction outcome is part of the canonical log: a run whose verdict could depend on
+		// Go's map order shows up in the determinism self-test
+		for i, tx := range s.txs {
+			var ks []string
+			for k, v := range tx.handoffs {
+				ks = append(ks, fmt.Sprintf("%s=%d", k[:12], v))
+			}
+			sort.Strings(ks)
+			s.log.Add("tx %03d status=%d inblock=%v deliveredInc=%d abandon=%v handoffs=%v", i, tx.status, tx.block != nil, tx.deliveredInc, tx.abandonLegit, ks)
+		}
+		s.log.Cut("outcome")
 		s.aborting = true
 		s.mu.Unlock()
 		cancel()
@@ -858,9 +912,9 @@ func (s *evmSim) runStep(st simkit.Step, obsvReqC chan *gossipv1.ObservationRequ
 		kinds := []string{"blockByNumber", "blockByHash", "receipt", "call", "subscribe"}
 		k := kinds[int(st.A)%len(kinds)]
 		s.mu.Lock()
-		for i := int64(0); i < 1+st.C%3; i++ {
-			s.faults[k] = append(s.faults[k], int(st.B)%2)
-		}
+		s.nFaults++
+		poll := time.Duration(s.prog.C("poll_ms", 1000)) * time.Millisecond
+		s.faults = append(s.faults, faultWindow{kind: k, code: int(st.B) % 3, serial: s.nFaults, from: s.now(), until: s.now() + time.Duration(1+st.C%3)*2*poll})
 		s.mu.Unlock()
 	case "racelog":
 		s.mu.Lock()
@@ -976,7 +1030,7 @@ func (s *evmSim) reobserve(st simkit.Step, obsvReqC chan *gossipv1.ObservationRe
 // transaction stayed in its block, must have been handed over exactly once.
 func (s *evmSim) settleAndCheck() {
 	s.mu.Lock()
-	s.faults = map[string][]int{}
+	s.faults = nil
 	s.raceLogs = nil
 	s.mu.Unlock()
 	// injected stalls (40 s), the callers' deadlines (15 s) and supervisor back-off must run out first
@@ -1111,7 +1165,7 @@ func (evmHarness) Gen(seed uint64, prop, tier string) *simkit.Program {
 		case 4:
 			add("reobs", int64(r.Intn(16)), int64(r.Intn(5)), 0)
 		case 5:
-			add("fault", int64(r.Intn(5)), int64(r.Intn(2)), int64(r.Intn(3)))
+			add("fault", int64(r.Pick(2, 2, 4, 1, 1)), int64(r.Intn(3)), int64(r.Intn(3)))
 		case 6:
 			add("subdrop", 0, 0, 0)
 		case 7:
